@@ -65,6 +65,7 @@ theorem quantize_main (c : Ctx) (hc : c.WF) (x : Dec) (hx : x.form = .finite) (e
         rw [if_pos hcond, if_pos (by omega)]
       · have fit := ctxRound_fit c hc { x with coeff := R.1, exp := e } hx (by simp only []; omega)
           (by simp only []; omega) (by simp only []; omega) (by simp only []; omega)
+        rw [← ctxRound_finite c { x with coeff := R.1, exp := e } hx] at fit
         simp only [] at fit
         by_cases h3 : R.1 ≠ 0 ∧ e + (ndigits R.1 : Int) - 1 > c.emax
         · have hcond : e < c.emin - (c.prec : Int) + 1 ∨ e > c.emax ∨ ndigits R.1 > c.prec ∨
@@ -136,7 +137,7 @@ theorem C09_quantize_syslimit (c : Ctx) (hc : c.WF) (x : Dec) (hx : x.form = .fi
     o.d = decNaN ∧ o.fl = Cond.cInvalidOp ∧ o.err = goError c.traps Cond.cInvalidOp := by
   intro o
   obtain ⟨c1, c2, c3, c4, c5⟩ := hc
-  have key := quantizeCore_sys c x e hk hnd hcarry
+  have key := quantizeCore_sys c x hx e hk hnd hcarry
   have ho : o = invalidNaN c := by
     simp only [o]
     rw [quantizeOp_eq c x hx e]
@@ -202,7 +203,7 @@ theorem C09_rtie_syslimit (c : Ctx) (x : Dec) (hx : x.form = .finite)
     (hexp : x.exp = -100000) (hnd : 100000 ≤ ndigits x.coeff)
     (hcarry : ndigits (quantSpec c x 0).1 > ndigits (x.coeff / 10 ^ 100000)) :
     (roundToIntegralExactOp c x).err = .sys := by
-  have key := quantizeCore_sys c x 0 (by omega) (by omega) (fun _ => hcarry)
+  have key := quantizeCore_sys c x hx 0 (by omega) (by omega) (fun _ => hcarry)
   simp only [roundToIntegralExactOp, toIntegralSpecials_finite c x hx, finish]
   rcases key with ⟨k1, _⟩ | ⟨_, k2⟩
   · exfalso; omega
